@@ -176,6 +176,18 @@ CHECKS = {
         "sub-application prefixes that need quoting are not generated.",
         "5/C14",
     ),
+    "C15": (
+        "exploration",
+        "grammar-based fuzzing of request targets against a marker-tagged file tree (confinement oracle = real path of the "
+        "file whose marker came back) + exhaustive enumeration of the small integer range space (start, end, suffix in "
+        "0..size+2, all sizes, conditional headers) against RFC 9110 range arithmetic, through a real server connection",
+        "Every generated target is sent as raw bytes to a real static route; any 200/206 must name a file the "
+        "configuration allows. Every range spec of the grid must yield the RFC verdict with mutually consistent status, "
+        "Content-Range, Content-Length and body bytes.",
+        "Trusts the marker scheme, the RFC model in the check and the response framer; POSIX only; stat/open races are out "
+        "of reach.",
+        "5/C15",
+    ),
 }
 
 REASON_PENDING = "check not built yet in this round (design in DESIGN.md section 5); not claimed until it runs quietly on the unchanged tree"
